@@ -61,7 +61,7 @@ func (c19) Gen(r *rand.Rand, tier string, idx int) *core.Plan {
 		case x < 12:
 			p.Ops = append(p.Ops, core.Op{Kind: "foreign", I: []int64{s, int64(r.IntN(8))}})
 		case x < 13:
-			p.Ops = append(p.Ops, core.Op{Kind: "hostile", I: []int64{s, int64(r.IntN(4))}})
+			p.Ops = append(p.Ops, core.Op{Kind: "hostile", I: []int64{s, int64(r.IntN(6))}})
 		case x < 14:
 			p.Ops = append(p.Ops, core.Op{Kind: "legacy", I: []int64{s, int64(r.IntN(8)), int64(r.IntN(2))}})
 		case x < 15:
@@ -274,6 +274,14 @@ func (l c19) Exec(env *core.Env) *core.Result {
 				case 3:
 					m.Layers, why = []ocispec.Descriptor{l1}, "5 MiB manifest"
 					m.Annotations["pad"] = strings.Repeat("p", 5<<20)
+				case 4: // "layers": [] (present but empty), not the absent / null list of kind 0
+					m.Layers, why = []ocispec.Descriptor{}, "empty layer list"
+				case 5: // a legacy artifact manifest of notation type with "blobs": []
+					if d, err := world.PushLegacyArtifact(ctx, inner, registry.ArtifactTypeNotation, []ocispec.Descriptor{}, &subj, map[string]string{"hostile": fmt.Sprint(len(trace))}); err == nil {
+						hostile[s][d.Digest] = "empty blob list (legacy manifest)"
+					}
+					sim.Abstract(fmt.Sprint("hostile", s, op.Int(1)))
+					continue
 				}
 				if d, err := world.PushManifest(ctx, inner, m); err == nil {
 					hostile[s][d.Digest] = why
